@@ -31,6 +31,10 @@ func concCfg(c *run.Ctx, name string, ng int, proviso bool, menu string) string 
 // pre-existing tensors changed with the write footprint of the specification; the final flags of
 // the program's tensors must be the specification's sequential view.
 func writeSetCheck(m *conc.Menu) string {
+	return run.Guard(func() string { return writeSetCheck0(m) })
+}
+
+func writeSetCheck0(m *conc.Menu) string {
 	for pi, p := range m.Menu {
 		sh := conc.NewShared()
 		heap := []tensor.Tensor{sh.S[0], sh.S[1]}
